@@ -233,6 +233,52 @@ theorem reach_append {P : Prog} {c c' : Cfg} (h : Reach P c c') : ∃ new, c'.A.
     obtain ⟨n2, h2⟩ := trans_append (Trans.halt (P := P) hs)
     exact ⟨n1 ++ n2, by rw [h2, h1, List.append_assoc]⟩
 
+/-- an allowed carriage return, backspace or escape character was supplied by the application -/
+theorem allowed_control {P : Prog} {ctl : Char} (hctl : ctl = '\r' ∨ ctl = '\x08' ∨ ctl = '\x1b')
+    (ha : allowed P ctl) : nameChar P ctl ∨ (ctl ≠ '\r' ∧ textChar P ctl) := by
+  rcases ha with h1 | h1 | h1 | h1 | h1 | ⟨h1, h2⟩
+  · rcases hctl with rfl | rfl | rfl <;> exact absurd h1 (by decide)
+  · rcases hctl with rfl | rfl | rfl <;> exact absurd h1 (by decide)
+  · rcases hctl with rfl | rfl | rfl <;> exact absurd h1 (by decide)
+  · rcases hctl with rfl | rfl | rfl <;> exact absurd h1 (by decide)
+  · exact .inl h1
+  · refine .inr ⟨?_, h1⟩
+    rintro rfl
+    exact absurd h2 (by decide)
+
+/-- the step of `drawScreen e` never fails and adds exactly the event `show e` -/
+theorem draw_step (P : Prog) (c : Cfg) (e : Entry) (rest : List Instr)
+    (hc : c.code = .drawScreen e :: rest) : ∃ c', step P c = .ok c' ∧ newTr c c' = [.show e] := by
+  have he := stepEff_draw (step_eff P c) e rest hc
+  cases hs : step P c with
+  | ok c' => exact ⟨c', rfl, by rwa [hs] at he⟩
+  | error p => simp [step, hc] at hs
+
+/-- the step of `printLines ls` appends exactly the chunk of its lines -/
+theorem print_step (P : Prog) (c c' : Cfg) (ls : List Str) (rest : List Instr)
+    (hc : c.code = .printLines ls :: rest) (hs : step P c = .ok c') :
+    c'.A.out = c.A.out ++ [ls.flatMap fun l => l ++ ['\n']] := by
+  have he := step_eff P c
+  rw [hs] at he
+  unfold StepEff at he
+  rw [hc] at he
+  exact he.1
+
+theorem windowLines_fit {P : Prog} {ls : List Str} (h : WindowLines P ls) :
+    ∀ l ∈ ls, l.length ≤ P.width.toNat ∧ '\n' ∉ l := by
+  obtain ⟨scr, g, hg, hls⟩ := h
+  exact fun l hl => ⟨windowLines_width P scr g hg l (hls l hl), windowLines_no_nl P scr g hg l (hls l hl)⟩
+
+theorem spacer_lines_exact (w : Int) :
+    ∀ l ∈ splitOn '\n' (spacer w), l = [] ∨ (l.length = w.toNat ∧ ∀ ch ∈ l, ch = '=') := by
+  intro l hl
+  rw [spacer_lines] at hl
+  simp only [List.mem_cons, List.not_mem_nil, or_false] at hl
+  rcases hl with rfl | rfl | rfl
+  · exact .inr ⟨by simp, fun ch h => List.eq_of_mem_replicate h⟩
+  · exact .inr ⟨by simp, fun ch h => List.eq_of_mem_replicate h⟩
+  · exact .inl rfl
+
 /-! ### the run of a concrete program is an execution -/
 
 theorem reach_runFuel {P : Prog} {c0 : Cfg} : ∀ (n : Nat) {c : Cfg}, Reach P c0 c → Reach P c0 (runFuel P n c).1 := by
